@@ -30,7 +30,9 @@ COOKIES = [None, 'clastic_cookie=garbage', 'clastic_cookie="eyJhIjoxfQ==?expires
 SCRIPTS = ['', '/mnt', '/a b/\xc3\xa9', None]          # None: the SCRIPT_NAME key is absent from the environ (PEP 3333 allows that when empty)
 FORMS = [b'x=hello+world&y=2', b'x=1&zp_n=abc&zq_unused2=v', b'zp_n=&zp_f=--1', b'zp_n=12&zp_f=1e3&x=%ff']
 SCENARIOS = ['small', 'large', 'random', 'binary', 'empty', 'streamed', 'ctx', 'ctxfalsy', 'ctxlist', 'redirect', 'raise403', 'ret404', 'raise500',
-             'ret503', 'nb403', 'boom', 'unknown', 'wrongmethod', 'form', 'status201', 'nocontent', 'preencoded', 'unicode']
+             'ret503', 'nb403', 'boom', 'unknown', 'wrongmethod', 'form', 'status201', 'nocontent', 'preencoded', 'unicode',
+             # compressible bodies whose length sits at / next to the buffer sizes an implementation may chunk by
+             'len4097', 'len8193', 'len16384', 'len16385', 'len32769', 'len65537', 'len131073']
 ENCODINGS = [None, 'gzip', 'gzip;q=0', '*', 'identity', 'deflate, gzip;q=0.5', 'gzip, deflate, br', 'GZIP', 'gzip;q=0.0, identity', 'x-gzip']
 PREENCODED = gzip.compress(b'already compressed ' * 200, mtime=0)   # fixed bytes: no wall-clock timestamp in the oracle
 RAND = bytes((i * 7919 + (i >> 3) * 104729 + (i * i) % 251) % 256 for i in range(3000))
@@ -79,6 +81,9 @@ def build(stack, level):
         'preencoded': lambda: Response(PREENCODED, headers={'Content-Encoding': 'gzip'}),
         'unicode': lambda: Response('é☃ ' * 400, mimetype='text/html'),
     }
+    for n_ in (4097, 8193, 16384, 16385, 32769, 65537, 131073):
+        # (ends in a distinctive last byte: a body that comes back one byte short must not look the same)
+        eps['len%d' % n_] = (lambda n=n_: Response((b'abcdefgh' * (n // 8 + 1))[:n - 1] + b'Z', mimetype='text/plain'))
 
     def raise403():
         raise errors.Forbidden('no entry ' * 100)
